@@ -189,6 +189,28 @@ def build(tier, work, builder):
     inst[0].note = "Document::add_instance (contracts/C08): the mapping P.x is substituted with is exactly the inherited bindings plus the new ones"
     jobs.append(inst[0])
     slices = slices + [type("S", (), {"info": (lambda self, d=d: d)})() for d in b8["slices"] if "add_instance" in str(d.get("name", ""))]
+    # type_t::subst / type_t::rename (one level on the real type node): what expr_dot applies to the member's type
+    from checks import type_common as TY
+    from checks import tc_common as TCM
+    wt = os.path.join(work, "ty"); os.makedirs(wt, exist_ok=True)
+    tcl = TY.type_class(); write(wt, "type_class.inc", tcl.text)
+    tst = TY.type_data_structs(); write(wt, "type_structs.inc", "\n".join(s.text for s in tst) + "\n")
+    tm = TY.type_members(names=("type_t::type_t", "type_t::unknown", "type_t::size", "type_t::get", "type_t::operator[]", "type_t::get_label", "type_t::get_kind", "type_t::get_expression",
+                                "type_t::get_position", "type_t::rename", "type_t::subst"))
+    for sl in tm:
+        if sl.name == "type_t::subst":
+            sl.sub("L12:recursive call on a child->contract", r"get\(i\)\.subst\(", "get(i).subst__contract(", required=True)
+            sl.sub("L12b:expression_t::subst->contract (C19)", r"data->expr\.subst\(symbol, expr\)", "verif_expr_subst(data->expr, symbol, expr)", required=True)
+        if sl.name == "type_t::rename":
+            sl.sub("L12:recursive call on a child->contract", r"get\(i\)\.rename\(", "get(i).rename__contract(", required=True)
+    write(wt, "type_subst_members.inc", "\n".join(s.text for s in tm) + "\n")
+    write(wt, "kinds.h", TCM.kinds_header())
+    slices = slices + [tcl] + tst + tm
+    tyobj = builder.cc(os.path.join(CDIR, "ty07.cpp"), includes=[wt, os.path.join(X.REPO, "include")], cpp=True)
+    tyh = builder.cc(os.path.join(CDIR, "h_ty07.c"), includes=[wt])
+    for nm in ("subst", "rename"):
+        jobs.append(F.Job("c07_type_" + nm, "h_c07_type_" + nm, [tyobj, tyh], unwind=10, functions=["type_t::" + nm + " (one level; children by contract)"],
+                          bound_note="type nodes of arity <= 3"))
     st = stmt_scope_slices(work)
     slices = slices + [s.info() if hasattr(s, "info") else s for s in []]
     stobj = builder.cc(os.path.join(CDIR, "sb07.cpp"), includes=[work, os.path.join(X.REPO, "include")], cpp=True)
@@ -202,7 +224,7 @@ def build(tier, work, builder):
         "trusted_base": ["CBMC 6.11 C++ front end + SAT", "contracts/C07/sym07.cpp: std::map<string,int32_t> as a last-writer table over 4 names, fixed-capacity std::vector<symbol_t>, std::optional<uint32_t> as a flag + value"],
         "assumptions": ["induction over the length of the parent chain (meta-step): resolve on the parent frame is answered by its contract",
                         "which frame is on top of the builder's frame stack at each use site is decided by the grammar-driven callbacks (only the quantifier callbacks and expr_dot are under contract, c07_scope_*)",
-                        "process-qualified names: expr_dot's process branch and add_instance's mapping are under contract; type_t::rename / type_t::subst themselves (that substituting a binding rewrites every occurrence inside the type) are not"],
+                        "process-qualified names: expr_dot's process branch, add_instance's mapping and type_t::rename / type_t::subst (one level each; by induction over the type tree every occurrence inside the member's type is rewritten) are under contract; expression_t::subst by its contract (C19)"],
         "explanation": "",
     }
 
